@@ -282,7 +282,11 @@ class ParseContext(ParserEngine):
         try:
             return exp(self)
         except TypeError as e:
-            if "arguments" in str(e):
+            # NOTE: retry only when the call itself did not fit the signature
+            #   of exp; a TypeError raised further down (by a rule body or a
+            #   semantic action) has more frames in its traceback
+            tb = e.__traceback__
+            if "arguments" in str(e) and (tb is None or tb.tb_next is None):
                 return boundcall(exp, {}, self)
             raise
 
